@@ -160,6 +160,31 @@ var nilableCallees = map[string]string{
 	"github.com/beevik/etree.Element.Parent":          "returns nil for the root",
 }
 
+// assertedFromAny: v is the pointer a type assertion / type-switch case took out of an empty-interface value.
+func assertedFromAny(v ssa.Value) *ssa.TypeAssert {
+	var ta *ssa.TypeAssert
+	switch x := v.(type) {
+	case *ssa.TypeAssert:
+		if !x.CommaOk {
+			ta = x
+		}
+	case *ssa.Extract:
+		if t, ok := x.Tuple.(*ssa.TypeAssert); ok && x.Index == 0 {
+			ta = t
+		}
+	}
+	if ta == nil {
+		return nil
+	}
+	if it, ok := ta.X.Type().Underlying().(*types.Interface); !ok || it.NumMethods() != 0 {
+		return nil
+	}
+	if _, isPtr := ta.AssertedType.Underlying().(*types.Pointer); !isPtr {
+		return nil
+	}
+	return ta
+}
+
 func c20(w *core.World, r *core.Report) {
 	scope := c20Scope(w)
 	r.Extra["boundary_scope_functions"] = len(scope)
@@ -186,7 +211,33 @@ func c20(w *core.World, r *core.Report) {
 	}
 	c20ExpandProgress(w, r)
 
-	nK1, nK3, nK4, nK6, nK2 := 0, 0, 0, 0, 0
+	r.Rule("ASSERTED-MSG", 0, "K12: a field selected on a protobuf message pointer that a type switch / type assertion took out of an 'any' value (case *sdcpb.Decimal64: v.Precision) needs a dominating nil test of that pointer, for the message types that the repository itself can leave nil inside a TypedValue (a oneof wrapper field is assigned the result of a repository function that can return nil: ParseDecimal64 answers (nil, nil) for an empty text): utils.GetSchemaValue boxes the getter result, and the typed nil still matches the case. (Wire-decoded sub-messages are never nil inside a set oneof; getter calls are nil-safe.)")
+	// message types the repository can leave nil inside a oneof wrapper of TypedValue -> who does it
+	nilableBoxed := map[string]string{}
+	for _, f := range w.RepoFns {
+		for _, b := range f.Blocks {
+			for _, in := range b.Instrs {
+				st, ok := in.(*ssa.Store)
+				if !ok || !strings.HasPrefix(core.FieldOf(st.Addr), "github.com/sdcio/sdc-protos/sdcpb.TypedValue_") {
+					continue
+				}
+				if _, isPtr := st.Val.Type().Underlying().(*types.Pointer); !isPtr {
+					continue
+				}
+				idx := 0
+				if ex, isEx := st.Val.(*ssa.Extract); isEx {
+					idx = ex.Index
+				}
+				for _, oc := range core.OriginCalls(st.Val) {
+					if g := oc.Call.StaticCallee(); g != nil && g.Blocks != nil && g.Pkg != nil && strings.HasPrefix(g.Pkg.Pkg.Path(), core.Module) && mayReturnNilPtr(g, idx) && !nilGuarded(st, st.Val) {
+						nilableBoxed[st.Val.Type().String()] = core.FuncKey(f) + " stores the result of " + core.FuncKey(g)
+					}
+				}
+			}
+		}
+	}
+	r.Extra["k12_nilable_boxed_types"] = nilableBoxed
+	nK1, nK3, nK4, nK6, nK2, nK12 := 0, 0, 0, 0, 0, 0
 	// derefParams: functions that select a field of a protobuf-message parameter without a nil guard
 	type pkey struct {
 		f   *ssa.Function
@@ -223,6 +274,12 @@ func c20(w *core.World, r *core.Report) {
 			for _, in := range b.Instrs {
 				switch x := in.(type) {
 				case *ssa.FieldAddr:
+					// K12: a protobuf message pointer taken out of an 'any' by a type switch / assertion
+					if ta := assertedFromAny(x.X); ta != nil && isInputMsgPtr(x.X.Type()) && nilableBoxed[x.X.Type().String()] != "" {
+						nK12++
+						r.Check(nilGuarded(x, x.X), "ASSERTED-MSG", core.Site(f, "(%s).%s", shortSrc(ta.AssertedType.String()), shortSrc(core.FieldKey(x))), w.InstrPos(x), "the pointer comes out of an 'any' that utils.GetSchemaValue (and the other boxing helpers) fill from protobuf getters: for an absent sub-message it is a typed nil, which matches the case and is dereferenced here (an empty decimal64 value crashes the request path)")
+						continue
+					}
 					c, isCall := x.X.(*ssa.Call)
 					if !isCall || !isInputMsgPtr(x.X.Type()) {
 						continue
@@ -417,4 +474,8 @@ func c20(w *core.World, r *core.Report) {
 		}
 	}
 	r.Extra["k1_sites"], r.Extra["k2_sites"], r.Extra["k3_sites"], r.Extra["k4_sites"], r.Extra["k6_sites"] = nK1, nK2, nK3, nK4, nK6
+	r.Extra["k12_sites"] = nK12
+	if nK12 == 0 {
+		r.OK("ASSERTED-MSG", "no field is selected on a message pointer asserted out of an any in the boundary scope", "", "")
+	}
 }
